@@ -148,6 +148,7 @@ def direct_cases(draw):
             "nold": draw(st.integers(0, 2)), "regularization": draw(st.booleans()),
             "akernel": draw(st.sampled_from([1, 3, 5, 5])), "vdepth": draw(st.integers(0, 2)),
             "origin": draw(st.sampled_from([None, None, [3, 2], [50, 17]])),
+            "flat": draw(st.sampled_from([None, None, None, None, 65535, 5001, 4097, 1234.5, 0])),
             "athr": draw(st.sampled_from([0.6, 0.4, 0.8, 0.0, 1.0])),
             "win": win, "img": draw(st.lists(st.lists(st.integers(0, 9), min_size=Wi, max_size=Wi),
                                              min_size=Hi, max_size=Hi))}
@@ -167,6 +168,9 @@ def direct_body(ctx: Ctx, p: dict) -> None:
     cv = np.full((H, W, nd), np.nan, dtype=np.float32)
     cv[off:H - off, off:W - off] = inner
     img = np.array(p["img"], dtype=np.float32)
+    if p.get("flat") is not None:
+        # a saturated / constant scene at deep radiometry: every window has zero variance (and squares that do not fit float32)
+        img = np.full_like(img, np.float32(p["flat"]))
     tm, method, sfx = p["type"], p["method"], p["suffix"]
     old = {}
     for k in range(p["nold"]):
